@@ -809,12 +809,30 @@ def rule_return_const(prog, rep, tier, writer="emit.argparse_function", reader="
             for k, v in zip(d.keys, d.values):
                 if not (isinstance(k, ast.Constant) and k.value == "default"):
                     continue
-                if not any(isinstance(x, ast.Attribute) and x.attr == "elts" for x in ast.walk(v)):
+                # the expression behind a local, and the body of a package helper it is handed to, belong to the value
+                closure, todo, seen_ = [], [v], set()
+                while todo and len(closure) < 12:
+                    e_ = todo.pop()
+                    closure.append(e_)
+                    for x in ast.walk(e_):
+                        if isinstance(x, ast.Name) and x.id not in seen_:
+                            seen_.add(x.id)
+                            todo += [st.value for st in ast.walk(f.node) if isinstance(st, ast.Assign) and any(isinstance(t, ast.Name) and t.id == x.id for t in st.targets)]
+                        if isinstance(x, ast.Call) and isinstance(x.func, (ast.Name, ast.Attribute)):
+                            for t in prog.resolve_expr_fn(x.func, x):
+                                if isinstance(t, FunctionInfo) and t.module is f.module and t.node not in closure and t.node is not f.node:
+                                    todo.append(t.node)
+                if not any(isinstance(x, ast.Attribute) and x.attr == "elts" for e_ in closure for x in ast.walk(e_)):
                     continue
                 found = True
+                v = ast.Tuple(elts=[e_ for e_ in closure if isinstance(e_, ast.expr)] + [st_.value for e_ in closure if isinstance(e_, (ast.FunctionDef,)) for st_ in ast.walk(e_)
+                                                                                           if isinstance(st_, (ast.Return, ast.Assign)) and st_.value is not None]
+                              + [t_.test for e_ in closure if isinstance(e_, ast.FunctionDef) for t_ in ast.walk(e_) if isinstance(t_, (ast.If, ast.IfExp))], ctx=ast.Load())
                 def takes_value(x):
                     nm = getattr(x.func, "id", getattr(x.func, "attr", None))
                     if nm in ("get_value", "literal_eval"):
+                        return True
+                    if nm == "getattr" and len(x.args) >= 2 and isinstance(x.args[1], ast.Constant) and x.args[1].value in ("value", "s"):
                         return True
                     # a package helper that does (parse_to_scalar: `get_value(node)` for constants)
                     if isinstance(x.func, (ast.Name, ast.Attribute)):
@@ -826,12 +844,76 @@ def rule_return_const(prog, rep, tier, writer="emit.argparse_function", reader="
                 by_value = any(isinstance(x, ast.Call) and takes_value(x) for x in ast.walk(v)) \
                     or any(isinstance(x, ast.Attribute) and x.attr in ("value", "s") and any(isinstance(y, ast.Attribute) and y.attr == "elts" for y in ast.walk(x.value))
                            for x in ast.walk(v))
+                v_shown = closure[0]
                 if by_value:
-                    rep.holds("RETURN-CONST", "%s: default = %s" % (prog.owner_name(f), src(v, 60)), loc(prog, v), "a constant is taken by its value")
+                    rep.holds("RETURN-CONST", "%s: default = %s" % (prog.owner_name(f), src(v_shown, 60)), loc(prog, v_shown), "a constant is taken by its value")
                 else:
                     rep.violation(Finding(
                         "RETURN-CONST", prog.owner_name(f), "constant-rendered-to-source",
                         "%s writes a back-tick quoted returned default as a string constant (set_value), and the reader takes the tuple element as %s: for a constant "
-                        "that is the literal with its quotes, so the default comes back with an extra pair of quotes around the ticks" % (writer, src(v, 50)), loc(prog, v)))
+                        "that is the literal with its quotes, so the default comes back with an extra pair of quotes around the ticks" % (writer, src(v_shown, 50)), loc(prog, v_shown)))
     if not found:
         raise AnalysisError("RETURN-CONST: the reader of the returned tuple's default was not found in %s" % reader)
+
+
+# ---------------------------------------------------------------------------- TABLE-style: google return type line
+def rule_google_return_type(prog, rep, tier, writer="docstring_utils.emit_param_str", entry="docstring_parsers.parse_docstring"):
+    """TABLE-style (google return entry): the Google writer puts the return type on a line of its own that ends in ':' and the
+    prose below it.  An entry may have a type and no prose (prose is optional): the text is then that one line.  A reader branch
+    that takes the *first* scanned line of the return block for the description must stand behind a test of that line's
+    trailing ':' - else `Tuple[int, int]:` is read back as prose and the type is lost."""
+    from sa.cfg import expr_guards as _eg
+    w = prog.fn(writer)
+    marks = [c for f in prog.region(w) for c in ast.walk(f.node) if isinstance(c, ast.Constant) and isinstance(c.value, str) and "{typ}:" in c.value.replace(" ", "")
+             and not c.value.strip().startswith(("{name}", ":"))]
+    if not marks:
+        rep.holds("TABLE-style", "google return type line: the writer no longer marks the type line with a trailing ':'", loc(prog, w.node), "nothing for the reader to test")
+        return
+    start = prog.fn(entry)
+    n = 0
+    for f in prog.reachable([start]):
+        if f.module is not start.module:
+            continue
+        for d in ast.walk(f.node):
+            if not isinstance(d, ast.Dict) or len(d.keys) != 1:
+                continue
+            k, v = d.keys[0], d.values[0]
+            if not (isinstance(k, ast.Constant) and k.value == "doc"):
+                continue
+            # a local that holds the first line (`first_line = return_lines[0]`) is that element
+            exprs = [v] + [st.value for nm in {x.id for x in ast.walk(v) if isinstance(x, ast.Name)} for st in ast.walk(f.node)
+                           if isinstance(st, ast.Assign) and len(st.targets) == 1 and isinstance(st.targets[0], ast.Name) and st.targets[0].id == nm]
+            firsts = [x for e_ in exprs for x in ast.walk(e_) if isinstance(x, ast.Subscript) and isinstance(x.slice, ast.Constant) and x.slice.value == 0
+                      and not any(isinstance(y, ast.Subscript) and y is not x and y.value is x for y in ast.walk(e_))]
+            if not firsts:
+                continue
+            aliases = {st.targets[0].id for st in ast.walk(f.node) if isinstance(st, ast.Assign) and len(st.targets) == 1 and isinstance(st.targets[0], ast.Name)
+                       and any(st.value is x or dump(st.value) == dump(x) for x in firsts)}
+            # only the google return block: a guard compares the style with google
+            gs = list(_eg(d, stop=f.node))
+            from sa.rules.wrap import style_path_tag
+            on_google = any(isinstance(a, ast.Attribute) and a.attr == "google" for t, _ in gs for a in ast.walk(t)) \
+                or "google" in style_path_tag(prog, start, f, d)
+            if not on_google or style_path_tag(prog, start, f, d) in ("not-google", "numpydoc"):
+                continue
+            # a first element that is no text (`{"doc": first} if not isinstance(first, str)`) has no colon to test
+            from sa.cfg import facts as _fx
+            if any(isinstance(a, ast.Call) and isinstance(a.func, ast.Name) and a.func.id == "isinstance" and len(a.args) == 2 and not pol_
+                   and "str" in {y.id for y in ast.walk(a.args[1]) if isinstance(y, ast.Name)} for t, pol in gs for a, pol_ in _fx(t, pol)):
+                continue
+            n += 1
+            key = dump(firsts[0])
+            tested = any(isinstance(c, ast.Call) and isinstance(c.func, ast.Attribute) and c.func.attr == "endswith" and c.args and isinstance(c.args[0], ast.Constant)
+                         and c.args[0].value == ":" and (key in dump(c.func.value) or any(isinstance(y, ast.Name) and y.id in aliases for y in ast.walk(c.func.value)))
+                         for t, _ in gs for c in ast.walk(t))
+            inst = "%s: doc from %s" % (prog.owner_name(f), src(firsts[0], 40))
+            if tested:
+                rep.holds("TABLE-style", "google return type line: " + inst, loc(prog, d), "behind a test of the line's trailing ':'")
+            else:
+                rep.violation(Finding(
+                    "TABLE-style", prog.owner_name(f), "google-return-type-line-as-prose",
+                    "the writer puts the return type on a line that ends in ':' (%r) and the prose below it; this branch takes the first line of the block for the "
+                    "description without testing for that ':' - an entry with a type and no prose (`Tuple[int, int]:`) is read back as prose, its type is lost"
+                    % marks[0].value, loc(prog, d)))
+    if n == 0:
+        rep.ob("TABLE-style", "google return type line: no reader branch takes the first line of the block for the description", "holds", "", "")
